@@ -25,7 +25,7 @@ type Spec struct {
 
 var registry = map[string]*Spec{}
 
-func Register(s *Spec) { registry[s.ID] = s }
+func Register(s *Spec)    { registry[s.ID] = s }
 func Get(id string) *Spec { return registry[id] }
 func Properties() []string {
 	var out []string
